@@ -1,9 +1,12 @@
 use crate::evidence::{Report, Tier};
 
+pub mod deblock;
 pub mod yuv;
 
 pub fn run(id: &str, tier: Tier) -> Option<Report> {
     Some(match id {
+        "C09" => deblock::run_c09(tier),
+        "C16" => deblock::run_c16(tier),
         "C07" => yuv::run_c07(tier),
         "C08" => yuv::run_c08(tier),
         _ => return None,
@@ -34,6 +37,7 @@ pub fn replay_file(path: &str) -> i32 {
     let case = &doc["case"];
     match case["kind"].as_str().unwrap_or("") {
         "yuv" => yuv::replay(case),
+        "deblock" => deblock::replay(case),
         k => {
             println!("no replayer for case kind {k:?}; the case is self-describing JSON");
         }
